@@ -446,3 +446,37 @@ def spec_via_driver(drv, select=None):
         ctx.coverage["B_evaluated"] = len(idx) - nskip
         return fails
     return check
+
+
+# ----------------------------------------------------------------------------------------------
+# numeric comparison of answer lines whose floats travel as 16-digit hex IEEE bit patterns
+
+import struct as _struct
+_HEX16 = re.compile(r"^[0-9a-f]{16}$")
+
+
+def hex_to_float(tok):
+    return _struct.unpack(">d", bytes.fromhex(tok))[0]
+
+
+def hexfloat_eq(tol=1e-12, rel=0.0):
+    """Equality for (A): same tokens, except that 16-hex-digit tokens are compared as doubles
+    within `tol` (absolute) or `rel` (relative); NaN equals NaN."""
+    def eq(req, a, b):
+        if a == b:
+            return True
+        ta, tb = a.split(" "), b.split(" ")
+        if len(ta) != len(tb):
+            return False
+        for x, y in zip(ta, tb):
+            if x == y:
+                continue
+            if _HEX16.match(x) and _HEX16.match(y):
+                fx, fy = hex_to_float(x), hex_to_float(y)
+                if fx != fx and fy != fy:
+                    continue
+                if abs(fx - fy) <= tol or abs(fx - fy) <= rel * max(abs(fx), abs(fy)):
+                    continue
+            return False
+        return True
+    return eq
